@@ -78,3 +78,7 @@ Fixpoint kw_lookup (t : list (list byte * tkind)) (lex : list byte) : tkind :=
 (* the keyword kinds of the enumeration (CapSelf .. While) *)
 Definition keyword_kinds : list tkind :=
   filter (fun k => Nat.leb 47 (tkind_index k) && Nat.leb (tkind_index k) 69) all_tkinds.
+
+(* the only function of compiler.rs that calls Chunk::add_constant (name:number of calls): the constant-pool limit
+   is checked there *)
+Definition constant_insertions_ref : list string := ["make_constant:1"].
